@@ -52,6 +52,7 @@ class PathNode:
         filename: str = None,
         path: str = None,
         length: int = None,
+        pad: bool = False,
     ):
         """
         Hold file information that contributes to the contents of torrent.
@@ -70,7 +71,10 @@ class PathNode:
             parent path, by default None
         length : int, optional
             size, by default None
+        pad : bool, optional
+            entry is a padding file that stands for zero bytes
         """
+        self.pad = pad
         self.path = path
         self.start = start
         self.stop = stop
@@ -92,6 +96,9 @@ class PathNode:
         bytes
             part of the file's contents
         """
+        if self.pad:
+            stop = self.length if self.stop == -1 else self.stop
+            return bytes(stop - (self.start or 0))
         with open(path, "rb") as fd:
             if self.start:
                 fd.seek(self.start)
@@ -167,6 +174,9 @@ class PieceNode:
             piece_hash = sha1(data).digest()  # nosec
             return piece_hash == self.piece
         pathnode = paths[0]
+        if pathnode.pad:
+            partial = pathnode.get_part(None)
+            return self._find_matches(filemap, paths[1:], data + partial)
         filename = pathnode.filename
         if filename not in filemap:
             return False  # pragma: nocover
@@ -267,6 +277,7 @@ class Metadata(CbMixin, ProgMixin):
                     "filename": path[-1],
                     "full": full,
                     "length": f["length"],
+                    "pad": "p" in f.get("attr", ""),
                 })
                 self.length += f["length"]
                 self.filenames.add(path[-1])
@@ -360,6 +371,8 @@ class Metadata(CbMixin, ProgMixin):
                 continue
             if piece_node.find_matches(filemap, dest):
                 for pathnode in paths:
+                    if pathnode.pad:
+                        continue
                     if pathnode.full not in copied:
                         copied.append(pathnode.full)
                         dest_path = os.path.join(dest, pathnode.full)
